@@ -9,12 +9,12 @@ from kernelprop import *
 import oracles
 
 
-def replay_stream(results, rng, tier, per_prog=2):
+def replay_stream(results, rng, tier, per_prog=2, only_failing=False):
     """build `run replay:<hex>` programs from recorded executions"""
     lines, meta = [], {}
     for sname, r in results.items():
         for n in r["names"]:
-            ex = [e for e in executions(r["impl"].get(n, [])) if e["sched"]]
+            ex = [e for e in executions(r["impl"].get(n, [])) if e["sched"] and (not only_failing or (e["end"] or "").startswith("E fail"))]
             if not ex:
                 continue
             picks = ex if len(ex) <= per_prog else [ex[rng.below(len(ex))] for _ in range(per_prog)]
